@@ -64,7 +64,15 @@ fn gen(seed: u64, idx: u64, _tier: Tier) -> Plan {
     {
         // (closed-loop clients run on after their start step: spread the clock steps over the load)
         let horizon_us = (20 + plan.world.faults_until_ms + rounds as u64 * 1100) * 1000;
-        if rng.chance(1, 4) {
+        if rng.chance(1, 8) {
+            // a clock that is being disciplined: many small steps back while the load runs, so that
+            // some fall between two clock readings of one batch
+            let t0 = 25_000 + rng.below(horizon_us / 2);
+            let gap = *rng.pick(&[50u64, 300, 2_000]);
+            for k in 0..200u64 {
+                plan.step(t0 + k * gap, Action::WallStepMs(*rng.pick(&[-250i64, -1, -1000])));
+            }
+        } else if rng.chance(1, 4) {
             for _ in 0..1 + rng.below(2) {
                 plan.step(25_000 + rng.below(horizon_us - 25_000), Action::WallStepMs(*rng.pick(&[-3_600_000i64, -61_000, -1000, -1, 1, 999, 1000, 61_000, 86_400_000])));
             }
